@@ -15,24 +15,37 @@ pub const HANG_LIMIT: usize = 50_000;
 pub struct GuardSink {
     pub inner: FaultySink,
     pub steps: Arc<AtomicUsize>,
+    /// the device accepts at most this many bytes per write call (a legal short write)
+    pub max_write: usize,
+    /// a second, independent fault: call index at which the sink answers Err(Other) once
+    pub second: Option<usize>,
 }
 impl GuardSink {
-    pub fn new(plan: Plan) -> Self {
-        GuardSink { inner: FaultySink::new(plan), steps: Default::default() }
+    pub fn new(plan: Plan, max_write: usize) -> Self {
+        GuardSink { inner: FaultySink::new(plan), steps: Default::default(), max_write, second: None }
     }
-    fn tick(&self) {
-        if self.steps.fetch_add(1, Ordering::SeqCst) > HANG_LIMIT {
+    /// Err(..) when this call is the second planned fault
+    fn tick(&self) -> io::Result<()> {
+        let call = self.steps.fetch_add(1, Ordering::SeqCst);
+        if call > HANG_LIMIT {
             panic!("HANG-GUARD: more than {HANG_LIMIT} sink calls");
         }
+        if self.second == Some(call) {
+            self.inner.calls.fetch_add(1, Ordering::SeqCst); // keep the call numbering of the inner sink aligned
+            self.inner.faults_fired.fetch_add(1, Ordering::SeqCst);
+            return Err(io::Error::other("injected second fault"));
+        }
+        Ok(())
     }
 }
 impl Write for GuardSink {
     fn write(&mut self, buf: &[u8]) -> io::Result<usize> {
-        self.tick();
-        self.inner.write(buf)
+        self.tick()?;
+        let k = buf.len().min(self.max_write);
+        self.inner.write(&buf[..k])
     }
     fn flush(&mut self) -> io::Result<()> {
-        self.tick();
+        self.tick()?;
         self.inner.flush()
     }
 }
@@ -129,7 +142,7 @@ impl Runner {
             }
             Err(p) => {
                 self.dead = true;
-                let fp = if p.msg.starts_with("HANG-GUARD") { "HANG".to_string() } else { p.fingerprint() };
+                let fp = if p.msg.starts_with("HANG-GUARD") { "HANG".to_string() } else { norm_panic(&p.fingerprint()) };
                 self.res.steps.push((name, StepRes::Panic(fp)));
                 None
             }
@@ -142,6 +155,16 @@ impl Runner {
     pub fn always<T, E: std::fmt::Debug + std::fmt::Display>(&mut self, name: &'static str, f: impl FnOnce() -> Result<T, E>) -> Option<T> {
         self.exec(name, true, f)
     }
+}
+
+/// class-level panic identity: the payload of an unwrapped Err (which names the injected error kind) is cut off
+pub fn norm_panic(fp: &str) -> String {
+    for marker in ["on an `Err` value", "on a `None` value"] {
+        if let Some(i) = fp.find(marker) {
+            return fp[..i + marker.len()].to_string();
+        }
+    }
+    fp.to_string()
 }
 
 type NoErr = std::convert::Infallible;
@@ -187,6 +210,41 @@ fn ipc_stream_buffered(r: &mut Runner, sink: GuardSink) {
     r.step("write2", || w.write(&b2));
     r.step("finish", || w.finish());
     r.always("into_inner", move || w.into_inner().map(|_| ()));
+}
+
+fn ipc_stream_zstd(r: &mut Runner, sink: GuardSink) {
+    let (b1, b2) = batches(true);
+    let opts = arrow_ipc::writer::IpcWriteOptions::default().try_with_compression(Some(arrow_ipc::CompressionType::ZSTD)).unwrap();
+    let Some(mut w) = r.step("new", || arrow_ipc::writer::StreamWriter::try_new_with_options(sink, &b1.schema(), opts)) else { return };
+    r.step("write1", || w.write(&b1));
+    r.step("write2", || w.write(&b2));
+    r.step("finish", || w.finish());
+    r.always("into_inner", move || w.into_inner().map(|_| ()));
+}
+fn ipc_file_lz4(r: &mut Runner, sink: GuardSink) {
+    let (b1, b2) = batches(true);
+    let opts = arrow_ipc::writer::IpcWriteOptions::default().try_with_compression(Some(arrow_ipc::CompressionType::LZ4_FRAME)).unwrap();
+    let Some(mut w) = r.step("new", || arrow_ipc::writer::FileWriter::try_new_with_options(sink, &b1.schema(), opts)) else { return };
+    r.step("write1", || w.write(&b1));
+    r.step("write2", || w.write(&b2));
+    r.step("finish", || w.finish());
+    r.always("into_inner", move || w.into_inner().map(|_| ()));
+}
+fn parquet_arrow_snappy(r: &mut Runner, sink: GuardSink) {
+    let (b1, b2) = batches(false);
+    let props = parquet::file::properties::WriterProperties::builder().set_created_by("verif".into()).set_compression(parquet::basic::Compression::SNAPPY).set_max_row_group_row_count(Some(2)).build();
+    let Some(mut w) = r.step("new", || parquet::arrow::ArrowWriter::try_new(sink, b1.schema(), Some(props))) else { return };
+    r.step("write1", || w.write(&b1));
+    r.step("write2", || w.write(&b2));
+    r.always("close", move || w.close().map(|_| ()));
+}
+fn avro_ocf_deflate(r: &mut Runner, sink: GuardSink) {
+    let (b1, b2) = batches(false);
+    let Some(mut w) = r.step("new", || arrow_avro::writer::WriterBuilder::new(b1.schema().as_ref().clone()).with_compression(Some(arrow_avro::compression::CompressionCodec::Deflate)).build::<_, arrow_avro::writer::format::AvroOcfFormat>(sink)) else { return };
+    r.step("write1", || w.write(&b1));
+    r.step("write2", || w.write(&b2));
+    r.step("finish", || w.finish());
+    r.always("into_inner", move || Ok::<(), NoErr>(drop(w.into_inner())));
 }
 
 pub fn pq_props() -> parquet::file::properties::WriterProperties {
@@ -336,12 +394,20 @@ pub fn cases() -> Vec<WriterCase> {
         WriterCase { name: "csv-writer", deterministic: true, run: csv },
         WriterCase { name: "json-line-delimited-writer", deterministic: true, run: json_lines },
         WriterCase { name: "json-array-writer", deterministic: true, run: json_array },
+        WriterCase { name: "ipc-stream-writer-zstd", deterministic: true, run: ipc_stream_zstd },
+        WriterCase { name: "ipc-file-writer-lz4", deterministic: true, run: ipc_file_lz4 },
+        WriterCase { name: "parquet-arrow-writer-snappy", deterministic: true, run: parquet_arrow_snappy },
+        WriterCase { name: "avro-ocf-writer-deflate", deterministic: false, run: avro_ocf_deflate },
     ]
 }
 
 /// Runs one writer script against a sink with the given plan.
-pub fn run_case(c: &WriterCase, plan: Plan, stop_at_error: bool) -> (ScriptResult, Vec<u8>, usize) {
-    let sink = GuardSink::new(plan);
+pub fn run_case(c: &WriterCase, plan: Plan, stop_at_error: bool, max_write: usize) -> (ScriptResult, Vec<u8>, usize) {
+    run_case2(c, plan, None, stop_at_error, max_write)
+}
+pub fn run_case2(c: &WriterCase, plan: Plan, second: Option<usize>, stop_at_error: bool, max_write: usize) -> (ScriptResult, Vec<u8>, usize) {
+    let mut sink = GuardSink::new(plan, max_write);
+    sink.second = second;
     let probe = sink.inner.clone();
     let mut r = Runner::new(probe.clone(), stop_at_error);
     (c.run)(&mut r, sink);
